@@ -152,6 +152,24 @@ def whole_carts(ctx, rnd):
             continue
         traces.append(rec)
         meta.append(('cart%d' % k, pat))
+    # the same format in the shape PICO-8 itself saves: trailing rows holding only default data are left out (the tail of
+    # each of gfx / gff / map / music is set to its default here, to a different depth per cart)
+    DEFAULTS = ((0x0000, 64, 128, (0,) * 64), (0x2000, 128, 32, (0,) * 128), (0x3000, 128, 2, (0,) * 128), (0x3100, 4, 64, (0x41, 0x42, 0x43, 0x44)))
+    for k in range(6 if ctx.quick else 40):
+        pat = (rnd.randrange(256), rnd.randrange(256))
+        ov = cartio.sparse_overrides(rnd, 20)
+        for start, rowlen, nrows, dflt in DEFAULTS:
+            keep = rnd.choice((0, 1, nrows // 2, nrows - 1, rnd.randrange(nrows + 1)))
+            for r_ in range(keep, nrows):
+                for i in range(rowlen):
+                    ov[start + r_ * rowlen + i] = dflt[i]
+        try:
+            rec, info = cartio.p8_truncated_trace(pat, ov, 8 + k)
+        except Exception as e:  # noqa
+            ctx.violation('p8-write-raises/%s' % type(e).__name__, 'writing a cart as .p8 raised %s' % e, {'kind': 'cart', 'pat': pat})
+            continue
+        traces.append(rec)
+        meta.append(('cart with the default rows at the end of its sections left out as PICO-8 does (rows present: %s)' % info['rows'], pat))
     can = json.loads(json.dumps(traces[0]))
     row = can['rows']['sfx'][40]
     can['rows']['sfx'][40] = row[:20] + ('0' if row[20] != '0' else '1') + row[21:]
